@@ -648,7 +648,9 @@ func newEmptyResultset(info *SelectPlan, stmt *ast.SelectStmt) *mysql.Resultset 
 	fieldLen -= info.columnCount - info.originColumnCount
 
 	r.Fields = make([]*mysql.Field, fieldLen)
-	for i, expr := range stmt.Fields.Fields {
+	// only the columns of the client's statement: the helper columns added for
+	// GROUP BY / ORDER BY are at the end of the field list
+	for i, expr := range stmt.Fields.Fields[:fieldLen] {
 		r.Fields[i] = &mysql.Field{}
 		if expr.WildCard != nil {
 			r.Fields[i].Name = []byte("*")
